@@ -252,8 +252,15 @@ def check_provenance(ctx):
             loops = _enclosing_loops(b, st)
             ok = False
             for lp in loops:
-                if isinstance(lp, ast.For) and isinstance(lp.target, ast.Name) and isinstance(key, ast.Name) and key.id == lp.target.id:
-                    it = view.expand(lp.iter, lp)
+                if not isinstance(lp, ast.For) or not isinstance(key, ast.Name):
+                    continue
+                tnames = [x.id for x in ast.walk(lp.target) if isinstance(x, ast.Name)]
+                it = view.expand(lp.iter, lp)
+                if isinstance(it, ast.Call) and call_name(it) == 'enumerate' and it.args and isinstance(lp.target, ast.Tuple) \
+                        and len(lp.target.elts) == 2:
+                    tnames = [x.id for x in ast.walk(lp.target.elts[1]) if isinstance(x, ast.Name)]
+                    it = it.args[0]
+                if key.id in tnames and len(tnames) == 1:
                     base = it.value if isinstance(it, ast.Subscript) else it
                     ok = 'tokenize(' in U(base) and 'self.index_attr' in U(base)
             ctx.check('R-CAND/posting', b, 'posting %d' % (i + 1), ok,
@@ -287,11 +294,20 @@ def check_window(ctx):
         size_expr = f.params[1] if cls == 'SizeFilter' else 'len(%s)' % f.params[1]
         ranges = [n for n in walk_own(f.node) if isinstance(n, ast.For) and isinstance(n.iter, ast.Call)
                   and call_name(n.iter) in ('range', 'xrange') and len(n.iter.args) == 2]
+        for n in walk_own(f.node):
+            if isinstance(n, (ast.DictComp, ast.ListComp, ast.SetComp, ast.GeneratorExp)):
+                for g_ in n.generators:
+                    if isinstance(g_.iter, ast.Call) and call_name(g_.iter) in ('range', 'xrange') and len(g_.iter.args) == 2:
+                        stub = ast.For(target=g_.target, iter=g_.iter, body=[], orelse=[])
+                        ast.copy_location(stub, n)
+                        stub._host = view.stmt_of(n)
+                        ranges.append(stub)
         if not ranges:
             raise AnalysisError('%s: no range(lo, hi + 1) loop over the size window' % f.where)
         for i, lp in enumerate(ranges):
-            lo = _norm_select(view.expand(lp.iter.args[0], lp))
-            hi = _norm_select(view.expand(lp.iter.args[1], lp))
+            host = getattr(lp, '_host', lp)
+            lo = _norm_select(view.expand(lp.iter.args[0], host))
+            hi = _norm_select(view.expand(lp.iter.args[1], host))
             norm = Norm()
             try:
                 rlo, rhi = _ref_window(norm, size_expr, idx)
@@ -435,10 +451,21 @@ def check_prune(ctx):
         if isinstance(n, ast.Assign) and isinstance(n.targets[0], ast.Subscript) and isinstance(n.value, ast.Call) \
                 and call_name(n.value) == 'get_overlap_threshold':
             tcache = n
+    tname = None
+    if tcache is None:
+        for n in walk_own(f.node):
+            if isinstance(n, ast.Assign) and isinstance(n.value, ast.DictComp) and isinstance(n.value.value, ast.Call) \
+                    and call_name(n.value.value) == 'get_overlap_threshold' and isinstance(n.targets[0], ast.Name):
+                tcache = n
+                tv = view.expand(n.value.value, n, keep=tuple(x.id for x in ast.walk(n.value.generators[0].target) if isinstance(x, ast.Name)))
+                tk = n.value.key
+                tname = n.targets[0].id
+    else:
+        tv = view.expand(tcache.value, tcache)
+        tk = tcache.targets[0].slice
+        tname = U(tcache.targets[0].value)
     if tcache is None:
         raise AnalysisError('%s: overlap threshold cache fill not found' % f.where)
-    tv = view.expand(tcache.value, tcache)
-    tk = tcache.targets[0].slice
     a = tv.args
     ok_t = len(a) == 5 and isinstance(tk, ast.Name) and U(a[0]) == tk.id and U(a[1]) == pn \
         and U(a[2]) == 'self.sim_measure_type' and U(a[3]) == 'self.threshold' and U(a[4]) == 'self.tokenizer'
@@ -446,7 +473,6 @@ def check_prune(ctx):
               'required-overlap cache is filled with `%s` under key `%s`; expected get_overlap_threshold(size, len(probe), '
               'self.sim_measure_type, self.threshold, self.tokenizer) under key size' % (U(tv)[:120], U(tk)), tcache,
               sample='T[size] = get_overlap_threshold(size, len(probe_tokens), M, t, tok)')
-    tname = U(tcache.targets[0].value)
     T = '%s[%s]' % (tname, cn)
     keep_ref = parse_expr('%s != -1 and %s <= %s and %s <= %s and %s + min(%s - %s, %s - %s) >= %s'
                           % (cur, lo_src, cn, cn, hi_src, cur, pn, ppos, cn, cpos, T))
